@@ -23,45 +23,70 @@ import (
 
 func c17LoopProbe(o *Out, rng *RNG, rounds int) {
 	words := []string{"a", "b=c", "x y", "q\"uote", "tab\tin", "\xc3\xa9", "--k=v", "z"}
+	hangs := 0
 	for round := 0; round < rounds; round++ {
+		// physical commands of the script: real command lines, and (every tenth) lines that hold no
+		// command at all - the loop passes over those, a command that reads the shared input gets
+		// them as an empty argument list. Arguments may be quoted, continued on the next line or a
+		// heredoc; the last line may lack its newline.
 		nLines := 2 + rng.Intn(6)
 		type line struct {
-			name string
+			name string // "" = a line without a command
 			args []string
 		}
 		lines := make([]line, nLines)
 		var script strings.Builder
 		for i := range lines {
+			if rng.Chance(10) {
+				script.WriteString([]string{"", " ", "\t ", " \\\n "}[rng.Intn(4)])
+				script.WriteByte('\n')
+				continue
+			}
 			name := fmt.Sprintf("c%d", rng.Intn(3))
 			if rng.Chance(30) {
 				name = "eat"
 			}
 			var args []string
-			for k := rng.Intn(3); k > 0; k-- {
-				args = append(args, words[rng.Intn(len(words))])
-			}
-			lines[i] = line{name, args}
 			script.WriteString(name)
-			for _, a := range args {
-				script.WriteByte(' ')
+			for k := rng.Intn(3); k > 0; k-- {
+				if rng.Chance(10) {
+					script.WriteString(" \\\n")
+				} else {
+					script.WriteByte(' ')
+				}
+				if rng.Chance(12) {
+					body := []string{"x", "two\nlines", " padded ", "EO\n\nE OF"}[rng.Intn(4)]
+					script.WriteString("h=<<EOF\n" + body + "\nEOF")
+					args = append(args, "h="+strings.Trim(body, " \t"))
+					continue
+				}
+				a := words[rng.Intn(len(words))]
+				args = append(args, a)
 				if strings.ContainsAny(a, " \t\"") || rng.Chance(30) {
 					script.WriteString(refQuote1(a))
 				} else {
 					script.WriteString(a)
 				}
 			}
-			script.WriteByte('\n')
+			lines[i] = line{name, args}
+			if i+1 < nLines || !rng.Chance(25) {
+				script.WriteByte('\n')
+			}
 		}
 		// expectation: "eat" swallows the following line (as arguments), which is then not run
 		var wantRun []string
 		var wantEaten [][]string
 		for i := 0; i < nLines; i++ {
+			if lines[i].name == "" {
+				continue
+			}
 			wantRun = append(wantRun, lines[i].name)
-			if lines[i].name == "eat" && i+1 < nLines {
+			if lines[i].name == "eat" && i+1 < nLines && lines[i+1].name != "" {
 				wantEaten = append(wantEaten, append([]string{lines[i+1].name}, lines[i+1].args...))
 				i++
 			} else if lines[i].name == "eat" {
 				wantEaten = append(wantEaten, nil)
+				i++
 			}
 		}
 		var mu sync.Mutex
@@ -104,6 +129,9 @@ func c17LoopProbe(o *Out, rng *RNG, rounds int) {
 		case <-time.After(20 * time.Second):
 			o.Fail("no_hang", "the terminal loop did not finish a script of "+fmt.Sprint(nLines)+" lines", "loop-hang", desc)
 			o.CountEval(fmt.Sprintf("loop:%d", round), true)
+			if hangs++; hangs >= 3 { // reported; every further hang would cost another 20 s
+				return
+			}
 			continue
 		}
 		mu.Lock()
@@ -119,5 +147,217 @@ func c17LoopProbe(o *Out, rng *RNG, rounds int) {
 		}
 		o.Stat("loop_scripts")
 		o.CountEval("loop:"+script.String(), len(wantEaten) > 0)
+	}
+}
+
+// c17Deps is what a command sees of its arguments (the "command" injector of RunCommand).
+type c17Deps struct {
+	P0 string `command:"?$0"`
+	P1 string `command:"?$1"`
+	P2 string `command:"?$2"`
+	P3 string `command:"?$3"`
+	P4 string `command:"?$4"`
+	K  string `command:"?k"`
+	N  string `command:"?name"`
+}
+
+// c17TermExecProbe drives the entry points of app/terminal/termexec/run.go that the loop probe does
+// not: RunCommandFromReader (one command per call from a reader the CALLER keeps: after each call the
+// reader must stand exactly behind that command's newline), RunString (the first command of a
+// string) and RunCommand (the argument list as it is). In each, the command must see its arguments
+// mapped as the property says: $0 = the command's name, $1.. the positional ones in order, named
+// ones under their keys.
+func c17TermExecProbe(o *Out, rng *RNG, rounds int) {
+	words := []string{"a", "b", "x y", "q\"uote", "tab\tin", "\xc3\xa9", "z", "--flag", "-", "new\nline", "back\\slash", ""}
+	values := []string{"v", "", "x y", "a=b", "\xc3\xa9\xff", "multi\nline", "--"}
+	type line struct {
+		src  string   // the command line without its newline
+		args []string // name + arguments
+	}
+	genLine := func() line {
+		name := fmt.Sprintf("c%d", rng.Intn(3))
+		l := line{src: name, args: []string{name}}
+		for k := rng.Intn(5); k > 0; k-- {
+			sep := " "
+			if rng.Chance(20) {
+				sep = []string{"\t", "  ", " \\\n", " \\\n "}[rng.Intn(4)]
+			}
+			switch r := rng.Intn(10); {
+			case r < 5:
+				w := words[rng.Intn(len(words))]
+				if w == "" || strings.ContainsAny(w, " \t\"\n\\") || rng.Chance(30) {
+					l.src += sep + refQuote1(w)
+				} else {
+					l.src += sep + w
+				}
+				l.args = append(l.args, w)
+			case r < 8:
+				key := []string{"k", "name", "--k", "-name", "other"}[rng.Intn(5)]
+				v := values[rng.Intn(len(values))]
+				l.src += sep + refQuote1(key+"="+v)
+				l.args = append(l.args, key+"="+v)
+			default:
+				key := []string{"k", "name"}[rng.Intn(2)]
+				body := []string{"x", "two\nlines", "  padded\t", "", "E O\nEO"}[rng.Intn(5)]
+				l.src += sep + key + "=<<EOF\n" + body + "\nEOF"
+				l.args = append(l.args, key+"="+strings.Trim(body, " \t"))
+			}
+		}
+		if rng.Chance(15) {
+			l.src += []string{" ", "\t", " \\\n"}[rng.Intn(3)]
+		}
+		return l
+	}
+	expectDeps := func(args []string) c17Deps {
+		sets, _ := c17ExpectInject(args)
+		var d c17Deps
+		for _, s := range sets {
+			switch s[0] {
+			case "$0":
+				d.P0 = s[1]
+			case "$1":
+				d.P1 = s[1]
+			case "$2":
+				d.P2 = s[1]
+			case "$3":
+				d.P3 = s[1]
+			case "$4":
+				d.P4 = s[1]
+			case "k":
+				d.K = s[1]
+			case "name":
+				d.N = s[1]
+			}
+		}
+		return d
+	}
+	for round := 0; round < rounds; round++ {
+		nLines := 1 + rng.Intn(4)
+		lines := make([]line, nLines)
+		var script strings.Builder
+		ends := make([]int, nLines) // offset just behind the newline of line i
+		for i := range lines {
+			lines[i] = genLine()
+			script.WriteString(lines[i].src)
+			script.WriteByte('\n')
+			ends[i] = script.Len()
+		}
+		src := script.String()
+		var mu sync.Mutex
+		var seen []c17Deps
+		mk := func(name string) app.TerminalCommand {
+			return terminal.NewCommand(terminal.CommandParams{Name: name, Callback: func(a app.App, ctx app.IOContext) error {
+				var d c17Deps
+				if err := ctx.Scope().InjectTo(&d); err != nil {
+					return err
+				}
+				mu.Lock()
+				seen = append(seen, d)
+				mu.Unlock()
+				return nil
+			}})
+		}
+		mapp, err := goatapp.NewMockupApp(goatapp.Params{IO: goatapp.IO{In: gio.NewAppInput(strings.NewReader(""))}})
+		must(err)
+		rctx := termexec.NewRunCtx(termexec.RunCtxParams{Application: mapp, Ctx: mapp.IOContext(),
+			Commands: terminal.NewCommands(mk("c0"), mk("c1"), mk("c2"))})
+		desc := map[string]interface{}{"op": "termexec", "script": byteList([]byte(src))}
+		guarded := func(what string, f func() error) (err error, ok bool) {
+			done := make(chan error, 1)
+			go func() {
+				defer func() {
+					if r := recover(); r != nil {
+						done <- fmt.Errorf("panic: %v", r)
+					}
+				}()
+				done <- f()
+			}()
+			select {
+			case err = <-done:
+				return err, true
+			case <-time.After(20 * time.Second):
+				o.Fail("no_hang", what+" did not return", "loop-hang", desc)
+				return nil, false
+			}
+		}
+		take := func() []c17Deps {
+			mu.Lock()
+			defer mu.Unlock()
+			s := seen
+			seen = nil
+			return s
+		}
+		sameDeps := func(got []c17Deps, want ...c17Deps) bool {
+			if len(got) != len(want) {
+				return false
+			}
+			for i := range got {
+				if got[i] != want[i] {
+					return false
+				}
+			}
+			return true
+		}
+		alive := true
+		// (a) RunCommandFromReader, one call per line on one reader
+		rd := strings.NewReader(src)
+		for i := 0; alive && i < nLines; i++ {
+			var eof bool
+			err, ok := guarded("RunCommandFromReader", func() (e error) { eof, e = termexec.RunCommandFromReader(rctx, rd); return })
+			if !ok {
+				alive = false
+				break
+			}
+			got, want := take(), expectDeps(lines[i].args)
+			if err != nil || eof || !sameDeps(got, want) {
+				o.Fail("inject", fmt.Sprintf("RunCommandFromReader, command %d of %q: the command saw %+v (want %+v), eof=%v err=%v", i, src, got, want, eof, err), "termexec", desc)
+				break
+			}
+			if left := rd.Len(); left != len(src)-ends[i] {
+				o.Fail("stops_at_newline", fmt.Sprintf("RunCommandFromReader, command %d of %q: %d bytes are left in the caller's reader, %d follow the command's newline",
+					i, src, left, len(src)-ends[i]), "termexec", desc)
+				break
+			}
+		}
+		// (b) RunString: the first command only
+		if alive {
+			err, ok := guarded("RunString", func() error { return termexec.RunString(rctx, src) })
+			alive = ok
+			if got, want := take(), expectDeps(lines[0].args); ok && (err != nil || !sameDeps(got, want)) {
+				o.Fail("inject", fmt.Sprintf("RunString(%q): the command saw %+v (want %+v), err=%v", src, got, want, err), "termexec", desc)
+			}
+		}
+		// ... a string that begins with blanks still runs its first command; one that begins with a
+		// newline has an empty first command: nothing runs (that RunString reports an error then is
+		// left open)
+		if alive {
+			err, ok := guarded("RunString", func() error { return termexec.RunString(rctx, " \t"+src) })
+			alive = ok
+			if got, want := take(), expectDeps(lines[0].args); ok && (err != nil || !sameDeps(got, want)) {
+				o.Fail("inject", fmt.Sprintf("RunString(%q): the command saw %+v (want %+v), err=%v", " \t"+src, got, want, err), "termexec", desc)
+			}
+		}
+		if alive {
+			lead := []string{"\n", " \n", "\t\n\n"}[rng.Intn(3)]
+			_, ok := guarded("RunString", func() error { return termexec.RunString(rctx, lead+src) })
+			alive = ok
+			if got := take(); ok && len(got) != 0 {
+				o.Fail("stops_at_newline", fmt.Sprintf("RunString(%q): the first command is empty, yet a command ran and saw %+v", lead+src, got), "termexec", desc)
+			}
+		}
+		// (c) RunCommand: the argument list as it is
+		if alive {
+			l := lines[rng.Intn(nLines)]
+			in := append([]string{}, l.args...)
+			err, ok := guarded("RunCommand", func() error { return termexec.RunCommand(rctx, in) })
+			if got, want := take(), expectDeps(l.args); ok && (err != nil || !sameDeps(got, want)) {
+				o.Fail("inject", fmt.Sprintf("RunCommand(%q): the command saw %+v (want %+v), err=%v", l.args, got, want, err), "termexec", desc)
+			}
+		}
+		o.Stat("termexec_scripts")
+		o.CountEval("termexec:"+src, true)
+		if !alive {
+			break
+		}
 	}
 }
